@@ -3,7 +3,7 @@
    (Related statements are grouped into one conjunction per family: Print Assumptions costs about a second per theorem.) *)
 From Coq Require Import ZArith NArith Bool List Reals.
 From Flocq Require Import Core.Core IEEE754.BinarySingleNaN.
-From CppUVerif Require Import lib.CInt lib.Dbl lib.Str C03_Model C03_Proofs C03_DblProofs C03_Main.
+From CppUVerif Require Import lib.CInt lib.Dbl lib.Str lib.CSem gen.Gen_LeafDbl C03_Model C03_Proofs C03_DblProofs C03_Main C03_LeafTie.
 Import ListNotations.
 Local Open Scope Z_scope.
 
@@ -129,3 +129,9 @@ Print Assumptions C03_double_finite.
 Theorem C03_run_meets_spec : forall c, valid c = true -> spec c (run c) = true.
 Proof. exact run_meets_spec. Qed.
 Print Assumptions C03_run_meets_spec.
+
+(* doubles_equal of the model IS the source: equal to the definition tools/cxx2coq.py regenerates from clang's AST of
+   Utest.cpp on every run (gen/Gen_LeafDbl.v; IsNan/IsInf/Fabs, -, <=, == mapped to Flocq's binary64 operations) *)
+Theorem C03_doubles_equal_is_the_source : forall d1 d2 t, leaf_doubles_equal d1 d2 t = b2z (doubles_equal d1 d2 t).
+Proof. exact C03_LeafTie.C03_doubles_equal_is_the_source. Qed.
+Print Assumptions C03_doubles_equal_is_the_source.
